@@ -226,8 +226,13 @@ static int grisu3_diy_fp_encode_double(uint64_t fraction, int exponent, int frac
      */
     mag = diy_size + v.e;
 
-    /* The effective magnitude of the IEEE double representation. */
-    mag = mag >= diy_size + denorm_exp ? diy_size : mag <= denorm_exp ? 0 : mag - denorm_exp;
+    /*
+     * The effective magnitude of the IEEE double representation.
+     * Only denormals have fewer significant bits than a normal double:
+     * a value with 53 or more bits above the denormal exponent is normal
+     * and must not be rounded at a wider precision than a double holds.
+     */
+    mag = mag >= GRISU3_D64_EXP_POS + 1 + denorm_exp ? diy_size : mag <= denorm_exp ? 0 : mag - denorm_exp;
     prec = diy_size - mag;
     if (prec + log2_error_one >= diy_size) {
         int e_scale = prec + log2_error_one - diy_size - 1;
